@@ -6,7 +6,7 @@
    followed by one add per element of [recs] in order (rejected adds included: they leave the
    tree unchanged, see C20); [accepted apex cls recs] is the flat list of the records the
    specification says are accepted.  [spec_lookup*] never looks at a tree. *)
-From QV Require Import Base.Res Base.Octets Model.ZoneTree Spec.ZoneLookupS Proofs.ZoneTopP.
+From QV Require Import Base.Res Base.Octets Model.ZoneTree Spec.ZoneLookupS Proofs.ZoneTopP Proofs.ZoneSpellP.
 
 (* the shared runner (Extract/ExZone.v) also extracts the validation model: keep it in this cone so
    that `make Props/...vo` rebuilds everything the extraction loads *)
@@ -47,6 +47,34 @@ Theorem c06_lookup_all_refines : forall req, req_transitive req ->
   exists r, zone_lookup_all z qn unchecked sbc = Ok r /\
             spec_lookup_all req apex cls (accepted apex cls recs) qn unchecked sbc = Some (norm_all r).
 Proof. exact build_lookup_all_refines. Qed.
+
+(* Exact form (letter case of the reported names included): the answer IS the specification's
+   answer with every reported name (referral child zone, source of synthesis) spelled as the zone
+   spells it — the apex as given to new, any other name as in the first accepted record at or below
+   it ([spelled], defined on the flat record list). *)
+Theorem c06_lookup_exact : forall req, req_transitive req ->
+  forall apex cls wide recs z qn ty unchecked sbc,
+  zone_build req (zone_new apex cls wide) recs = Some z ->
+  (unchecked = true -> in_zone apex qn = true) ->
+  exists r', spec_lookup req apex cls (accepted apex cls recs) qn ty unchecked sbc = Some r' /\
+             zone_lookup z qn ty unchecked sbc = Ok (spell_lookup apex (accepted apex cls recs) r').
+Proof. exact build_lookup_exact. Qed.
+
+Theorem c06_lookup_addrs_exact : forall req, req_transitive req ->
+  forall apex cls wide recs z qn unchecked sbc,
+  zone_build req (zone_new apex cls wide) recs = Some z ->
+  (unchecked = true -> in_zone apex qn = true) ->
+  exists r', spec_lookup_addrs req apex cls (accepted apex cls recs) qn unchecked sbc = Some r' /\
+             zone_lookup_addrs z qn unchecked sbc = Ok (spell_addrs apex (accepted apex cls recs) r').
+Proof. exact build_lookup_addrs_exact. Qed.
+
+Theorem c06_lookup_all_exact : forall req, req_transitive req ->
+  forall apex cls wide recs z qn unchecked sbc,
+  zone_build req (zone_new apex cls wide) recs = Some z ->
+  (unchecked = true -> in_zone apex qn = true) ->
+  exists r', spec_lookup_all req apex cls (accepted apex cls recs) qn unchecked sbc = Some r' /\
+             zone_lookup_all z qn unchecked sbc = Ok (spell_all apex (accepted apex cls recs) r').
+Proof. exact build_lookup_all_exact. Qed.
 
 (* The case left out above — an unchecked lookup of a name that is NOT at or below the apex, which
    the documentation of LookupOptions::unchecked declares a caller error ("may panic or return
@@ -99,5 +127,8 @@ Print Assumptions c06_build_total.
 Print Assumptions c06_lookup_refines.
 Print Assumptions c06_lookup_addrs_refines.
 Print Assumptions c06_lookup_all_refines.
+Print Assumptions c06_lookup_exact.
+Print Assumptions c06_lookup_addrs_exact.
+Print Assumptions c06_lookup_all_exact.
 Print Assumptions c06_unchecked_outside.
 Print Assumptions c06_req_simple_transitive.
